@@ -148,7 +148,7 @@ WAVE = [0.4, 0.5, 0.658, 0.85, 1.0, 1.6]
 TEMP = [-20.0, 0.0, 15.0, 45.0]
 PRES = [650.0, 1013.25, 1100.0]
 HUM = [0.0, 50.0, 100.0]
-CO2 = [300.0, 420.0, 600.0]
+CO2 = [300.0, 420.0, 600.0, 416.45, 300.5]      # whole and fractional ppm values (measured CO2 contents are not whole numbers)
 DIST = [1.0, 1e3, 5e4]
 NREF = 1.000281781
 
@@ -164,6 +164,7 @@ def gen_atm(tier, seed):
         yield {'wave': w, 'temps': [-1.0, -2.0, -1.0, 15.0, -2.0], 'parform': 'tuple'}
         yield {'wave': w, 'temps': [-2, -1, -2, 0, -1], 'parform': 'array'}
         yield {'wave': w, 'temps': [15.0, 15.0, 25.0], 'parform': 'array'}
+        yield {'wave': w, 'temps': [15.0, -5.0], 'parform': 'unit'}
 
 
 def ev_atm(case, rec):
@@ -186,6 +187,20 @@ def ev_atm1(case, rec, shared):
         if st != 'ok':
             rec.fail('first_vel_params raised', site='survey:first_vel_params', observed=par, case=case)
             return
+        # the same instrument described by unit length and modulation frequency (Rueger eq. 6.3) gives the same parameters, and
+        # both equal the published formulas
+        ul = 10.0
+        freq = 299792458.0 / (2.0 * ul * NREF)
+        stu, paru = rec.call(first_vel_params, w, freq, None, ul)
+        c_pub = (NREF - 1.0) * 1.0e6
+        d_pub = (273.15 / 1013.25) * (287.6155 + 4.8866 / w ** 2 + 0.068 / w ** 4)
+        for nm, pp in (('reference index', par), ('unit length and frequency', paru if stu == 'ok' else None)):
+            if pp is None or not (abs(pp[0] - c_pub) <= 1e-6 and abs(pp[1] - d_pub) <= 1e-9 * d_pub):
+                rec.fail('first velocity parameters C, D from the %s are not (n_ref - 1) 1e6 and 273.15/1013.25 (287.6155 + 4.8866/l^2 + 0.068/l^4)' % nm,
+                         site='survey:first_vel_params:value', observed=paru if pp is None else list(pp), expected=[c_pub, d_pub], case=case,
+                         coords={'wave': w, 'path': nm})
+        if case.get('parform') == 'unit' and stu == 'ok':
+            par = paru
         if case.get('parform') == 'array':
             par = np.array(par, dtype=float)
             shared['par'], shared['par0'] = par, par.tobytes()
